@@ -807,7 +807,9 @@ def run(ctx):
         replay = {"mode": k.mode, "model": k.text, "meta": m, "verdict": x["V"], "diagnostics": x["E"],
                   "how": "./check C12 --replay <this file>  (harness/c12.cpp: parse + type check the model)"}
         if m.get("sibling"):
-            if m["const"] and x["V"] == "rejected":
+            if m["const"] and x["V"] == "rejected" and (LHS in x["E"] or INCOMP in x["E"]) and \
+                    "$Constant_fields_not_allowed_in_struct" not in x["E"]:
+                # (when the declaration itself is refused the shape cannot be built and there is nothing to report)
                 ctx.finding("rejects-mutable:record-with-const-array-member/sibling-field",
                             "a mutable member next to a const array member cannot be written: `%s` in %s is rejected (%s)"
                             % (m["target"], "struct { const int k[2]; int v; } x", ",".join(x["E"])), replay)
